@@ -575,6 +575,37 @@ fn collapse_terminates(ds: &PartialDSet, remove: &[usize], connector: usize) -> 
     true
 }
 
+/// every hooked move called directly on one D-set (not only on the states `simplify` reaches)
+fn direct(out: &mut Vec<Pending>, src: &str, ds: &PartialDSet, full_limit: usize) {
+    let ops: [(&'static str, fn(&PartialDSet) -> OO); 4] = [
+        ("fix1", hk::fix_local_1_vertex),
+        ("fix2", hk::fix_local_2_vertex),
+        ("fnd", hk::fix_non_disk_face),
+        ("split_and_glue", hk::split_and_glue),
+    ];
+    for (name, f) in ops {
+        let res = pre(|| f(ds));
+        let nt = matches!(res, Some(Some(_)));
+        case_oo(out, name, src, ds, String::new(), nt, f);
+        if let Some(Some(Some(next))) = res {
+            match name {
+                "fix1" => detail_fix1(out, src, ds),
+                "fix2" => detail_fix2(out, src, ds),
+                "fnd" => detail_fnd(out, src, ds, &next),
+                _ => {}
+            }
+        }
+    }
+    if let Some((inner, junk)) = pre(|| tiles_junk(ds)) {
+        if ds.size() <= full_limit {
+            case_oo(out, "merge_tiles", src, ds, String::new(), !junk.is_empty(), hk::merge_tiles);
+        }
+        case_oo(out, "merge_tiles_g", src, ds, enc_pairs(&inner), !junk.is_empty(), hk::merge_tiles);
+    }
+    case_oo(out, "merge_facets", src, ds, String::new(), true, hk::merge_facets);
+    case_skeleton(out, src, ds);
+}
+
 /// replay of `simplify()` with the hooks; every call is a case
 fn replay(out: &mut Vec<Pending>, src: &str, ds0: &PartialDSet, rng: &mut Rng, full_limit: usize, max_steps: usize) {
     let mut detail_budget = 3usize;
@@ -873,8 +904,8 @@ fn main() {
             } else {
                 let mut rng = ctx.rng(3000 + cand);
                 let k = match (thorough, n) {
-                    (false, 2) => 1500,
-                    (false, _) => 300,
+                    (false, 2) => 5000,
+                    (false, _) => 1200,
                     (true, 3) => 6000,
                     (true, _) => 1500,
                 };
@@ -912,6 +943,49 @@ fn main() {
                     out
                 });
             }
+        }
+    }
+
+    // (4) crafted: the double of a ball whose boundary sphere is cut by a figure-eight (one vertex,
+    // two loops, three faces, the outer one touching the vertex twice: a non-disk face, and two
+    // one-edge faces), and finer decompositions of it — S^3, trivial group.  Drives
+    // fix_non_disk_face / fix_local_* directly.
+    {
+        let s0 = [0usize, 3, 4, 1, 2, 7, 8, 5, 6];
+        let s1 = [0usize, 3, 8, 1, 6, 7, 4, 5, 2];
+        let s2 = [0usize, 2, 1, 4, 3, 6, 5, 8, 7];
+        let mut op = vec![vec![0usize; 17]; 4];
+        for d in 1..=8 {
+            for (i, t) in [&s0, &s1, &s2].iter().enumerate() {
+                op[i][d] = t[d];
+                op[i][d + 8] = t[d] + 8;
+            }
+            op[3][d] = d + 8;
+            op[3][d + 8] = d;
+        }
+        let fig8 = Tab { size: 16, dim: 3, op, v: vec![vec![0; 17]; 3] };
+        let nvar = if thorough { 200 } else { 32 };
+        for j in 0..nvar {
+            let mut rng = ctx.rng(5000 + j as u64);
+            let fig8 = fig8.clone();
+            blocks.run(&mut ctx, move || {
+                let mut out = vec![];
+                let t = if j == 0 {
+                    fig8.clone()
+                } else {
+                    let steps = 1 + rng.below(5);
+                    let Some(t) = subdivide(&fig8, &mut rng, steps) else { return out };
+                    if j % 2 == 0 { t.renumbered(&random_perm1(&mut rng, t.size)) } else { t }
+                };
+                if !in_domain(&t) {
+                    return out;
+                }
+                let ds = tab_to_ds(&t);
+                direct(&mut out, "crafted", &ds, full_limit);
+                case_simplify(&mut out, "crafted", 1, &t);
+                replay(&mut out, "crafted", &ds, &mut rng, full_limit, max_steps);
+                out
+            });
         }
     }
     ctx.finish();
